@@ -399,7 +399,7 @@ func init() {
 		},
 		Stages: []*fw.Stage{
 			{
-				Name: "histories", N: q(1500, 100000),
+				Name: "histories", N: q(1500, 60000),
 				Run: func(c *fw.Case) {
 					n := c.R.Range(1, 200)
 					if c.R.Chance(1, 8) {
@@ -418,7 +418,7 @@ func init() {
 				},
 			},
 			{
-				Name: "concurrent", Race: true, N: q(300, 12000),
+				Name: "concurrent", Race: true, N: q(300, 6000),
 				GoMaxProcs: func(shard int) int { return []int{2, 4, 8, 16}[shard%4] },
 				Run: func(c *fw.Case) {
 					if c.W.Hooks != nil {
